@@ -36,7 +36,8 @@ LEVEL_NOTE = ("The quantile-based automatic binning and the timestamp conversion
               "leaf-type specifications (sum/average/deviate/min/max/bag/thresholds/fraction/cut), which the oracle covers.")
 TECHNIQUE = "Lean 4 proof (tree construction, chunk additivity via C01+C03) + make_histograms-vs-model correspondence + direct-fill / chunk-sum oracle"
 LEAN_MODULE = "Hg.Props.C14"
-THEOREMS = []
+THEOREMS = ["Hg.C14.mkTree_wf", "Hg.C14.make_entries", "Hg.C14.make_eq_direct", "Hg.C14.chunks_add_up", "Hg.C14.mkTree_goodRun",
+            "Hg.C14.resolve_bool", "Hg.C14.resolve_nd", "Hg.C14.resolve_empty", "Hg.C14.resolve_one"]
 CASES = {"quick": 150, "thorough": 4000}
 RULE = ("per case one frame of 3..30 rows with up to 11 columns, 2..7 features of 1-3 dimensions, a random binning mode and explicit "
         "bin_specs (all kinds, aliases, `{}` entries), a random partition into 1..4 chunks taken with iloc, a random index; "
@@ -529,6 +530,9 @@ def post_model(py, model):
                     v = "True" if v else "False"
                 cells.append(cell_to_wire(v))
             rows.append(cells)
+        r = model.d.send(["$framehyp", doc_to_wire({"one": one, "many": many}), doc_to_wire(feat), rows])
+        if r is not True:
+            return {"what": "feature %s: the hypotheses of the C14 theorems (axes resolve and are valid, every column evaluates) are %r on a real frame" % (f, r)}
         r = model.d.send(["$mkhist", "$h", "$np", doc_to_wire({"one": one, "many": many}), doc_to_wire(feat), rows])
         if r != "ok":
             return {"what": "feature %s: the model cannot build/fill the histogram (%r)" % (f, r)}
